@@ -3,14 +3,17 @@
   Proved here: the closure step that `_compile` applies to every resource, port size and constraint side (a substituted
   expression only mentions symbols of the scope's values, provided every symbol of the source expression is declared in the
   scope); internal names (local variables, port variables, `child.resource` references) are KEYS of the scope and hence never
-  survive; a total numeric assignment leaves no symbol.  PARTIAL: the induction over the whole hierarchy (that the scope of
-  every node really has every declared name as a key when the node is compiled — which needs the children to be processed in
-  data-flow order and the local variables in dependency order) is not yet a theorem; it is exercised by the oracle of
-  harness/props/c04.py on every expression of every compiled node.
+  survive; a total numeric assignment leaves no symbol.  WHOLE HIERARCHY (C04_hierarchy_closed_partial): well-scopedness is
+  stated semantically — the bottom-up reading of the (preprocessed) routine is defined everywhere as soon as exactly the names of
+  G are given, i.e. it never looks up a name nobody declared — and the refinement theorem of C01, instantiated with the one-point
+  interpretation (BartiqProofs/Scoping.lean), turns it into: every port size and every resource of every node of the compiled
+  hierarchy mentions only names of G.  PARTIAL: `plainB` as in C01 (no closed-form/custom sequences, no user-written sum_over);
+  repetition fields and retained constraints are inspected by the oracle of harness/props/c04.py only.
 -/
 import BartiqProofs.FvLemmas
 import BartiqProofs.CompileSpec
 import BartiqProofs.SortLemmas
+import BartiqProofs.Scoping
 namespace Bartiq
 open Expr
 
@@ -65,5 +68,37 @@ theorem C04_node_lists_port_symbols (C : Comparator) (r : Routine) (inputs : Dic
   apply (sortBy_perm _).mem_iff.mpr
   apply List.mem_append_right
   exact List.mem_flatMap.mpr ⟨p, hp, hx⟩
+
+/-- **the whole compiled hierarchy is closed over the top-level inputs**: if the bottom-up reading of the routine is defined
+    everywhere when exactly the names of `G` are given (well-scopedness: no name is used that nobody declares), then every port
+    size and every resource of every node of the compiled hierarchy mentions only names of `G` — no port variable, local
+    variable or `child.resource` reference survives anywhere -/
+theorem C04_hierarchy_closed_partial (C : Comparator) (r : Routine) (c : CRoutine) (path : String) (G : List String)
+    (h : compile C [] path r = .ok c) (hp : plainB r = true)
+    (hws : ∃ nv, denoteV unitAlg (envOf G) [] r = some nv ∧ nv.allDefined = true) : c.closedOver G := by
+  obtain ⟨nv, hnv, hall⟩ := hws
+  have href := compile_refines_denoteV unitAlg (envOf G) C r [] path c h hp
+  simp only [Dict.mapVal, List.map_nil] at href
+  rw [href] at hnv
+  cases hnv
+  exact closed_of_allDefined G c hall
+
+/-- … and the same below any node, for whatever its parent hands down: the values given to the node's inputs count as given -/
+theorem C04_subtree_closed_partial (C : Comparator) (r : Routine) (σ : Dict Expr) (c : CRoutine) (path : String) (G : List String)
+    (h : compile C σ path r = .ok c) (hp : plainB r = true)
+    (hws : ∃ nv, denoteV unitAlg (envOf G) (σ.mapVal (eval unitAlg (envOf G))) r = some nv ∧ nv.allDefined = true) :
+    c.closedOver G := by
+  obtain ⟨nv, hnv, hall⟩ := hws
+  rw [compile_refines_denoteV unitAlg (envOf G) C r σ path c h hp] at hnv
+  cases hnv
+  exact closed_of_allDefined G c hall
+
+-- non-vacuity: root(N) with local v = N + 1, child a(n := v) with resource T = 2·n, root resource T = a.T + v
+def wsExample : Routine :=
+  ⟨"root", none, ["N"], [("v", .bin .add (.sym "N") (.num 1))], [("v", [("a", "n")])], [], [⟨"T", .additive, .bin .add (.sym "a.T") (.sym "v")⟩], [],
+    none, [], [⟨"a", none, ["n"], [], [], [], [⟨"T", .additive, .bin .mul (.num 2) (.sym "n")⟩], [], none, [], [], []⟩], ["a"]⟩
+example : (denoteV unitAlg (envOf ["N"]) [] wsExample).map NVal.allDefined = some true := by decide
+-- … and the hypothesis fails when a name nobody declares is used: the same routine read with nothing given
+example : (denoteV unitAlg (envOf []) [] wsExample).map NVal.allDefined = some false := by decide
 
 end Bartiq
